@@ -29,6 +29,8 @@
 EXTENDS Integers, Sequences, FiniteSets, TLC, Json
 
 CONSTANTS Blocks,    \* names of the blocks of the input space to enumerate (see Block below)
+          Script,    \* sequence of scripted behaviours, each a sequence of <<m, c, p, t, s>> class names
+                     \* (seeded random samples of the full product, written by checks/C12.py)
           T0,        \* shard.CurrentTime of the test agent (seconds)
           FutureSlots, \* superQueueFutureSlots = 3
           TagShift   \* format.TagIDShift = 100
@@ -38,8 +40,9 @@ VARIABLES rows,   \* row key -> aggregate
           nAcc, nRej,   \* ghost: events accepted / rejected so far
           gcnt,   \* ghost: sum of the exact counts contributed so far
           last,   \* ghost: the last event with its decision (what the invariants look at)
-          first,  \* <<block, metric class, counter class>> of the behaviour's first event, chosen
-                  \* initially (an input; it also lets TLC's workers share the enumeration)
+          first,  \* <<block, metric class, counter class, 0>> of the behaviour's first event, or
+                  \* <<"script", "", "", j>>: behaviour Script[j]; chosen initially (an input; it
+                  \* also lets TLC's workers share the enumeration)
           hist
 
 vars == <<rows, stats, nAcc, nRej, gcnt, last, first, hist>>
@@ -109,6 +112,7 @@ PayloadOf(p) ==
     [] p = "vnmaxf" -> P(<<X("nmaxf"), F(1)>>, <<>>, <<>>)
     [] p = "vnan"   -> P(<<X("nan")>>, <<>>, <<>>)
     [] p = "v1nan"  -> P(<<F(1), X("nan")>>, <<>>, <<>>)
+    [] p = "vnan1"  -> P(<<X("nan"), F(1)>>, <<>>, <<>>)
     [] p = "vpinf"  -> P(<<X("pinf")>>, <<>>, <<>>)
     [] p = "vninf"  -> P(<<F(2), X("ninf")>>, <<>>, <<>>)
     [] p = "vbig"   -> P(<<X("big")>>, <<>>, <<>>)
@@ -143,7 +147,7 @@ PayloadOf(p) ==
     [] p = "hu"     -> P(<<>>, <<7>>, <<E(F(2), F(3))>>)
     [] p = "vhu"    -> P(<<F(1)>>, <<7, 8>>, <<E(F(2), F(3))>>)
 AllPayloads == {"none", "v2", "v123", "v55", "vneg", "vfrac", "vzero", "vmaxf", "vnmaxf", "vnan",
-                "v1nan", "vpinf", "vninf", "vbig", "vnbig", "vnanbig", "vbignan", "u7", "u3", "udup",
+                "v1nan", "vnan1", "vpinf", "vninf", "vbig", "vnbig", "vnanbig", "vbignan", "u7", "u3", "udup",
                 "uneg", "h23", "h2", "hz", "hz2", "hhalf", "hmaxfw", "hnanv", "hbigv", "hnbigv",
                 "hnanw", "hnegw", "hbigw", "hpinfw", "hokbad", "hnanvnegw", "v2h", "v123hz",
                 "vnanhnan", "v2hneg", "vu", "vnanu", "hu", "vhu"}
@@ -265,6 +269,9 @@ Block(b) ==
     [] b = "tags"  -> B({"plain"}, {"c0", "c3", "cnan"}, {"none", "v123", "u3", "vnan"}, AllTagLists, {"cur"}, 1)
     [] b = "meta"  -> B(AllMetrics, {"c0", "c1", "cneg"}, {"none", "v123"},
                         {"none", "unknown", "badname", "top", "host", "env"}, AllStamps, 1)
+    [] b = "dataq" -> B({"plain"}, AllCounters, AllPayloads, {"none", "t1"}, {"cur"}, 1)            \* quick tier
+    [] b = "metaq" -> B(AllMetrics, {"c0", "c1", "cneg"}, {"none", "v123"},
+                        {"none", "unknown", "badname", "top"}, {"none", "cur", "fut4"}, 1)            \* quick tier
     [] b = "cross" -> B({"plain", "pct", "res5", "dual"}, {"c0", "c2", "c6", "c5h", "cneg", "cmaxf"},
                         {"none", "v123", "v55", "vneg", "vfrac", "vmaxf", "v1nan", "u3", "udup", "h2", "hz2", "hhalf", "v2h", "vu"},
                         {"none", "t1mapped", "named", "legacy", "unknown", "draft", "corrupt", "rawbad", "r64big", "twice", "topmapped", "manywarn"},
@@ -273,7 +280,7 @@ Block(b) ==
     [] b = "seq3"  -> B({"plain"}, {"c0", "c6"}, {"none", "v123", "u3"}, {"none"}, {"cur"}, 3)
     [] b = "seqbig" -> B({"plain", "dual", "notfound"}, {"c0", "c6", "cnan"}, {"none", "v123", "u3", "h2"},
                          {"none", "top"}, {"cur", "fut4"}, 2)
-AllBlocks == {"data", "tags", "meta", "cross", "seq", "seq3", "seqbig"}
+AllBlocks == {"data", "tags", "meta", "dataq", "metaq", "cross", "seq", "seq3", "seqbig"}
 ASSUME /\ Blocks \subseteq AllBlocks
        /\ \A b \in AllBlocks : /\ Block(b).metrics \subseteq AllMetrics /\ Block(b).counters \subseteq AllCounters
                                /\ Block(b).payloads \subseteq AllPayloads /\ Block(b).taglists \subseteq AllTagLists
@@ -409,18 +416,22 @@ Contrib(e) ==
   LET ents == Entries(e)
       vals == {ents[i].v : i \in DOMAIN ents}
       mn   == CHOOSE x \in vals : \A y \in vals : ~NumLt(y, x)
-      mx   == CHOOSE x \in vals : \A y \in vals : ~NumLt(x, y) IN
-  IF ~AllFinW(e)
-  THEN \* a weight or the counter is exactly MaxFloat32: a row appears; its count and sums are
-       \* not modelled (cexact, vexact = FALSE), min and max are
-       [NoContrib EXCEPT !.present = TRUE, !.cexact = FALSE, !.vexact = FALSE, !.hasVal = Len(ents) # 0,
-                         !.min = IF Len(ents) # 0 THEN mn ELSE F(0), !.max = IF Len(ents) # 0 THEN mx ELSE F(0),
-                         !.emitted = TRUE, !.uniq = {e.u[i] : i \in DOMAIN e.u}]
+      mx   == CHOOSE x \in vals : \A y \in vals : ~NumLt(x, y)
+      wfin == \A i \in DOMAIN ents : IsFin(ents[i].w)
+      inexact == \* the counter or a weight is exactly MaxFloat32: a row appears; its count and sums
+                 \* are not modelled (cexact, vexact = FALSE), min and max are
+         [NoContrib EXCEPT !.present = TRUE, !.cexact = FALSE, !.vexact = FALSE, !.hasVal = Len(ents) # 0,
+                           !.min = IF Len(ents) # 0 THEN mn ELSE F(0), !.max = IF Len(ents) # 0 THEN mx ELSE F(0),
+                           !.emitted = TRUE, !.uniq = {e.u[i] : i \in DOMAIN e.u}] IN
+  IF ~wfin THEN inexact                                       \* total weight > 0, count > 0
   ELSE LET total  == Total(e)
-           passed == IF IsZero(e.ctr) THEN total ELSE e.ctr IN
-       IF ~RLt(F(0), passed) THEN NoContrib                                   \* count <= 0: return
-       ELSE IF Len(ents) = 0 THEN [NoContrib EXCEPT !.present = TRUE, !.cnt = passed, !.emitted = TRUE]
-       ELSE IF ~RLt(F(0), total) THEN [NoContrib EXCEPT !.emitted = TRUE]      \* totalCount <= 0: return
+           passed == IF IsZero(e.ctr) THEN total ELSE e.ctr   \* Shard.Apply*: if count == 0 { count = total }
+           pos    == ~IsFin(passed) \/ RLt(F(0), passed) IN   \* (a validated counter that is not "fin" is MaxFloat32)
+       IF ~pos THEN NoContrib                                                  \* count <= 0: return
+       ELSE IF Len(ents) = 0 THEN (IF IsFin(passed) THEN [NoContrib EXCEPT !.present = TRUE, !.cnt = passed, !.emitted = TRUE]
+                                   ELSE inexact)
+       ELSE IF ~RLt(F(0), total) THEN [NoContrib EXCEPT !.emitted = TRUE]      \* MultiValue.Apply*: totalCount <= 0: return
+       ELSE IF ~IsFin(passed) THEN inexact
        ELSE LET fin  == AllFinV(e)
                 scale(x) == IF REq(passed, total) THEN x ELSE RDiv(RMul(x, passed), total) IN
             [present |-> TRUE, cexact |-> TRUE, vexact |-> fin, hasVal |-> TRUE, cnt |-> passed,
@@ -489,7 +500,8 @@ IsErr(st) == st \notin {"OKCached", "WarnMapTagNameNotFound", "WarnMapTagNameFou
 
 Init == /\ rows = <<>> /\ stats = <<>> /\ nAcc = 0 /\ nRej = 0 /\ gcnt = F(0)
         /\ last = [any |-> FALSE] /\ hist = <<>>
-        /\ first \in UNION {{<<b, m, c>> : m \in Block(b).metrics, c \in Block(b).counters} : b \in Blocks}
+        /\ first \in UNION {{<<b, m, c, 0>> : m \in Block(b).metrics, c \in Block(b).counters} : b \in Blocks}
+                      \cup {<<"script", "", "", j>> : j \in DOMAIN Script}
 
 IngestCore(m, c, p, t, s) ==
   LET e  == Ev(m, c, p, t, s)
@@ -513,7 +525,7 @@ RowsOut(r)  == {[key |-> k, agg |-> r[k]] : k \in DOMAIN r}
 StatsOut(s) == {[key |-> k, n |-> s[k]] : k \in DOMAIN s}
 Ingest(m, c, p, t, s) ==
   /\ IngestCore(m, c, p, t, s)
-  /\ hist' = Append(hist, [a |-> "Ingest", b |-> first[1], m |-> m, c |-> c, p |-> p, t |-> t, s |-> s,
+  /\ hist' = Append(hist, [a |-> "Ingest", b |-> first[1], j |-> first[4], m |-> m, c |-> c, p |-> p, t |-> t, s |-> s,
                            ev |-> [ctr |-> last'.ev.ctr, v |-> last'.ev.v, u |-> last'.ev.u, h |-> last'.ev.h,
                                    tags |-> last'.ev.tags, ts |-> last'.ev.ts],
                            md |-> MetricOf(m),
@@ -525,15 +537,24 @@ Ingest(m, c, p, t, s) ==
                            post |-> [rows |-> RowsOut(rows'), stats |-> StatsOut(stats')]])
 
 Applicable(m, t) == MetricOf(m).rich \/ ~MetricOf(m).found \/ GenericList(t)
-Next == LET b == Block(first[1]) IN
-        /\ Len(hist) < b.ops
+TableNext ==
+  LET b == Block(first[1]) IN
+  /\ Len(hist) < b.ops
+  /\ \E m \in (IF hist = <<>> THEN {first[2]} ELSE b.metrics),
+        c \in (IF hist = <<>> THEN {first[3]} ELSE b.counters),
+        p \in b.payloads, t \in b.taglists, s \in b.stamps :
+        /\ Applicable(m, t)
+        /\ (hist # <<>> => s # "none")       \* rows of different wall-clock seconds do not merge
+        /\ Ingest(m, c, p, t, s)
+ScriptNext ==
+  LET sc == Script[first[4]] IN
+  /\ Len(hist) < Len(sc)
+  /\ LET x == sc[Len(hist) + 1] IN
+       /\ Assert(x[1] \in AllMetrics /\ x[2] \in AllCounters /\ x[3] \in AllPayloads /\ x[4] \in AllTagLists
+                 /\ x[5] \in AllStamps /\ Applicable(x[1], x[4]) /\ (hist # <<>> => x[5] # "none"), <<"bad script", x>>)
+       /\ Ingest(x[1], x[2], x[3], x[4], x[5])
+Next == /\ IF first[1] = "script" THEN ScriptNext ELSE TableNext
         /\ UNCHANGED first
-        /\ \E m \in (IF hist = <<>> THEN {first[2]} ELSE b.metrics),
-              c \in (IF hist = <<>> THEN {first[3]} ELSE b.counters),
-              p \in b.payloads, t \in b.taglists, s \in b.stamps :
-              /\ Applicable(m, t)
-              /\ (hist # <<>> => s # "none")       \* rows of different wall-clock seconds do not merge
-              /\ Ingest(m, c, p, t, s)
 Spec == Init /\ [][Next]_vars
 
 -------------------------------------------------------------------------------
